@@ -1,4 +1,142 @@
 import DaeVerif.C11.DomainProofs
+import DaeVerif.C11.LoudsProofs
 /-! C11 — helper lemmas are split over `DomainProofs` (pattern normalisation, replay, build),
-`BitListProofs` (packed units), `RankSelectProofs` (popcount rank / select caches) and
-`LoudsProofs` (BFS layout and navigation).  This file assembles them. -/
+`BitListProofs` (packed units), `RankSelectProofs` (popcount rank / select caches),
+`TreeProofs` (sorted keys → tree of nodes), `FlatProofs` (BFS numbering) and `LoudsProofs`
+(packed bitmaps ↔ BFS list).  This file assembles the end-to-end statement about `NewTrie`/`HasPrefix`. -/
+namespace DaeVerif.C11
+open List
+
+theorem foldl_max_spec : ∀ (l : List Str) (m : Nat),
+    m ≤ l.foldl (fun m k => max m k.length) m ∧ ∀ k ∈ l, k.length ≤ l.foldl (fun m k => max m k.length) m
+  | [], m => ⟨Nat.le_refl _, by simp⟩
+  | a :: l, m => by
+    obtain ⟨h1, h2⟩ := foldl_max_spec l (max m a.length)
+    simp only [List.foldl_cons]
+    refine ⟨by omega, ?_⟩
+    intro k hk
+    rcases List.mem_cons.mp hk with rfl | hk
+    · omega
+    · exact h2 k hk
+
+theorem length_le_maxLen (keys : List Str) (k : Str) (hk : k ∈ keys) : k.length ≤ maxLen keys :=
+  (foldl_max_spec keys 0).2 k hk
+
+theorem hasPrefixSpec_congr (a b : List Str) (w : Str) (h : ∀ k, k ∈ a ↔ k ∈ b) :
+    hasPrefixSpec a w = hasPrefixSpec b w := by
+  rw [Bool.eq_iff_iff]
+  simp only [hasPrefixSpec, List.any_eq_true]
+  constructor
+  · rintro ⟨k, hk, hp⟩; exact ⟨k, (h k).mp hk, hp⟩
+  · rintro ⟨k, hk, hp⟩; exact ⟨k, (h k).mpr hk, hp⟩
+
+/-- the BFS output of a non-empty strictly sorted key list over the alphabet is well formed -/
+theorem bfs_wf (chars : ValidChars) (ks : List Str) (hne : ks ≠ []) (hs : StrictSorted ks)
+    (hv : ∀ k ∈ ks, ∀ c ∈ k, chars.isValid c = true) : WF chars (bfs ks) := by
+  have hok : LvlOk (fun c => chars.isValid c = true) [ks] := by
+    intro m hm; simp only [List.mem_singleton] at hm; subst hm; exact ⟨hne, hs, hv⟩
+  have hfuel : ∀ m ∈ [ks], ∀ k ∈ m, k.length < maxLen ks + 2 := by
+    intro m hm k hk; simp only [List.mem_singleton] at hm; subst hm
+    have := length_le_maxLen m k hk; omega
+  refine ⟨?_, ?_, ?_, ?_⟩
+  · have := levels_wf _ (maxLen ks + 2) [ks] [] hok hfuel (by simp [degs])
+    simpa [bfs] using this
+  · exact levels_last_leaf _ (maxLen ks + 2) [ks] hok (by simp) hfuel
+  · intro o ho l hl
+    exact levels_labels _ (maxLen ks + 2) [ks] hok o ho l hl
+  · intro h2
+    unfold bfs at h2 ⊢
+    rw [show maxLen ks + 2 = (maxLen ks + 1) + 1 by omega, levels_succ _ _ (by simp)] at h2 ⊢
+    refine ⟨Node.out ks, by simp, ?_⟩
+    intro hlab
+    have hch : Node.children ks = [] := by simpa [Node.out] using hlab
+    have : nextLevel [ks] = [] := by simp [nextLevel, hch]
+    rw [this] at h2
+    simp [levels] at h2
+
+/-- **`HasPrefix (NewTrie keys) = hasPrefixSpec keys`** for the bit-exact model: LOUDS bitmaps packed in
+64-bit words, popcount rank cache, sampled select cache, labels / caches in `CompactBitList`s. -/
+theorem trie_hasPrefix_eq_spec_core (chars : ValidChars) (h0 : 0 < chars.size) (h256 : chars.size ≤ 256)
+    (keys : List Str) (hne : keys ≠ []) (hv : ∀ k ∈ keys, ∀ c ∈ k, chars.isValid c = true) (w : Str) :
+    ∃ t, Trie.build chars keys = .ok t ∧ t.hasPrefix w = some (hasPrefixSpec keys w) := by
+  refine ⟨_, Trie.build_ok chars keys hne hv, ?_⟩
+  have hks_ne : sortDedup keys ≠ [] := by
+    cases keys with
+    | nil => exact absurd rfl hne
+    | cons k ks =>
+      intro h
+      have : k ∈ sortDedup (k :: ks) := (mem_sortDedup k _).mpr (by simp)
+      rw [h] at this; simp at this
+  have hks_v : ∀ k ∈ sortDedup keys, ∀ c ∈ k, chars.isValid c = true :=
+    fun k hk => hv k ((mem_sortDedup k keys).mp hk)
+  have wf := bfs_wf chars (sortDedup keys) hks_ne (sortDedup_strict keys) hks_v
+  have hlen : 0 < (bfs (sortDedup keys)).length := by have := wf.len; omega
+  have hwalk := walk_eq_flat chars (bfs (sortDedup keys)) wf h0 h256 w 0 hlen
+  have hstart : start (bfs (sortDedup keys)) 0 = 0 := by simp [start, degs]
+  rw [hstart] at hwalk
+  unfold Trie.hasPrefix
+  rw [hwalk]
+  congr 1
+  have hflat := walkFlat_eq_tree w [] [sortDedup keys] (maxLen (sortDedup keys) + 2) 0 (sortDedup keys)
+    (by simp) (by simp [degs]) (by
+      intro m hm k hk; simp only [List.mem_singleton] at hm; subst hm
+      have := length_le_maxLen _ k hk; omega)
+  simp only [List.nil_append, List.length_nil, Nat.zero_add] at hflat
+  rw [show bfs (sortDedup keys) = levels (maxLen (sortDedup keys) + 2) [sortDedup keys] from rfl, hflat,
+    walkNode_eq_spec w _ (sortDedup_strict keys)]
+  exact hasPrefixSpec_congr _ _ w (fun k => mem_sortDedup k keys)
+
+/-! ### the matcher on top of the bit-exact trie -/
+
+theorem domainChars_size : 0 < domainChars.size ∧ domainChars.size ≤ 256 := by decide
+
+theorem option_mapM_of_forall {α β : Type} (f : α → Option β) (g : α → β) :
+    ∀ l : List α, (∀ x ∈ l, f x = some (g x)) → l.mapM f = some (l.map g)
+  | [], _ => rfl
+  | x :: l, h => by
+    rw [List.mapM_cons, h x (by simp), option_mapM_of_forall f g l (fun y hy => h y (by simp [hy]))]
+    rfl
+
+/-- a built set answers through the packed trie exactly what the trie contract says -/
+theorem builtOf_matches (log : List AddCall) (i : Nat) (dom : Str) (rxHits : List Nat) :
+    (builtOf (setOf log i)).matches dom rxHits = some ((builtOf (setOf log i)).matchesSpec dom rxHits) := by
+  unfold BuiltSet.matches BuiltSet.matchesSpec builtOf
+  simp only
+  by_cases he : ((setOf log i).trie.map toSuffixTrieString).isEmpty = true
+  · have : (setOf log i).trie.map toSuffixTrieString = [] := by simpa using he
+    simp [he, this, hasPrefixSpec]
+  · simp only [he, Bool.false_eq_true, ↓reduceIte]
+    have hne : (setOf log i).trie.map toSuffixTrieString ≠ [] := by
+      intro h; simp [h] at he
+    have hv : ∀ k ∈ (setOf log i).trie.map toSuffixTrieString, ∀ c ∈ k, domainChars.isValid c = true := by
+      intro k hk c hc
+      obtain ⟨k0, hk0, rfl⟩ := List.mem_map.mp hk
+      simp only [setOf] at hk0
+      obtain ⟨a, _, ha⟩ := List.mem_flatMap.mp hk0
+      exact contrib_trie_valid a k0 ha c hc
+    obtain ⟨t, ht, hpre⟩ := trie_hasPrefix_eq_spec_core domainChars domainChars_size.1 domainChars_size.2
+      _ hne hv (trieQuery dom)
+    rw [Trie.build_ok domainChars _ hne hv] at ht
+    injection ht with ht
+    rw [ht, hpre]
+    rfl
+
+theorem matchIndices_eq_spec (n : Nat) (log : List AddCall) (b : Built) (hsize : b.sets.size = n)
+    (hsets : ∀ i, i < n → b.sets[i]? = some (builtOf (setOf log i))) (name : Str) (rxHits : List Nat) :
+    b.matchIndices name rxHits = some (b.matchIndicesSpec name rxHits) := by
+  unfold Built.matchIndices Built.matchBits Built.matchIndicesSpec
+  simp only [hsize]
+  rw [option_mapM_of_forall _ (fun i => (builtOf (setOf log i)).matchesSpec (normName name) rxHits)]
+  · simp only [Option.map_some]
+    congr 1
+    apply List.filter_congr
+    intro i hi
+    have hi' : i < n := by simpa using hi
+    rw [hsets i hi']
+    simp [List.getD_eq_getElem?_getD, List.getElem?_map, List.getElem?_range hi']
+  · intro i hi
+    have hi' : i < n := by simpa using hi
+    rw [hsets i hi']
+    exact builtOf_matches log i _ rxHits
+
+end DaeVerif.C11
